@@ -24,7 +24,13 @@ use crate::store::{gen_data, show_data};
 use crate::{hex, p_u64, Domain};
 
 type Store = FaultyStore<MemStore>;
-const KS: &str = "ks";
+/// The keyspace the following requests address (`ks <name>` switches; a node holds many; exchanges cover all of them).
+static CUR_KS: parking_lot::Mutex<String> = parking_lot::const_mutex(String::new());
+
+fn ksn() -> String {
+    let g = CUR_KS.lock();
+    if g.is_empty() { "ks".to_string() } else { g.clone() }
+}
 
 struct NodeRt {
     id: u8,
@@ -49,7 +55,8 @@ enum Issued {
 
 pub struct ClusterDomain {
     nodes: Vec<NodeRt>,
-    ops: Vec<(usize, Issued)>,
+    /// issued operations, per keyspace (indices in `deliver` / `batch` are per keyspace)
+    issued: std::collections::HashMap<String, Vec<(usize, Issued)>>,
     fake: Option<(Server, SocketAddr)>,
     /// real task distributor services (C16, consumer side), one per node that started one
     dists: Vec<Option<verif::Distributor>>,
@@ -59,7 +66,7 @@ pub struct ClusterDomain {
 
 impl ClusterDomain {
     pub fn new(_params: &[&str]) -> Self {
-        Self { nodes: Vec::new(), ops: Vec::new(), fake: None, dists: Vec::new(), down: Vec::new() }
+        Self { nodes: Vec::new(), issued: std::collections::HashMap::new(), fake: None, dists: Vec::new(), down: Vec::new() }
     }
 }
 
@@ -140,17 +147,17 @@ impl Handler<GetState> for FakeRepl {
 impl ClusterDomain {
     async fn read_node(&self, j: usize) -> String {
         let n = &self.nodes[j];
-        let ks = n.group.get_or_create_keyspace(KS).await;
+        let ks = n.group.get_or_create_keyspace(&ksn()).await;
         let set = match tmo(ks.send(Serialize)).await {
             Some(Ok(bytes)) => dump_set(&decode_set(&bytes)),
             _ => "unavailable".to_string(),
         };
-        let mut meta: Vec<(u64, u64, bool)> = n.group.storage().iter_metadata(KS).await.expect("meta").map(|(k, t, b)| (k, t.as_u64(), b)).collect();
+        let mut meta: Vec<(u64, u64, bool)> = n.group.storage().iter_metadata(&ksn()).await.expect("meta").map(|(k, t, b)| (k, t.as_u64(), b)).collect();
         meta.sort();
         let mut docs = Vec::new();
         for (k, _, tomb) in meta.iter() {
             if !*tomb {
-                if let Ok(Some(d)) = n.group.storage().get(KS, *k).await {
+                if let Ok(Some(d)) = n.group.storage().get(&ksn(), *k).await {
                     docs.push(format!("{}:{}:{}", d.id(), d.last_updated().as_u64(), show_data(d.data())));
                 }
             }
@@ -160,16 +167,16 @@ impl ClusterDomain {
     }
 
     async fn deliver(&self, to: usize, k: usize) -> String {
-        let (from, op) = self.ops[k].clone();
+        let (from, op) = self.issued.get(&ksn()).expect("ops")[k].clone();
         let src = &self.nodes[from];
         let dst = &self.nodes[to];
         let channel = src.network.get_or_connect(dst.addr);
         let mut client = ConsistencyClient::<Store>::new(src.clock.clone(), channel);
         let r = match op {
-            Issued::Put(doc) => tmo(client.put(KS, doc, src.id, src.addr)).await,
-            Issued::Del(m) => tmo(client.del(KS, m.id, m.last_updated)).await,
-            Issued::MPut(docs) => tmo(client.multi_put(KS, docs.into_iter(), src.id, src.addr)).await,
-            Issued::MDel(ms) => tmo(client.multi_del(KS, DocVec::from_vec(ms))).await,
+            Issued::Put(doc) => tmo(client.put(&ksn(), doc, src.id, src.addr)).await,
+            Issued::Del(m) => tmo(client.del(&ksn(), m.id, m.last_updated)).await,
+            Issued::MPut(docs) => tmo(client.multi_put(&ksn(), docs.into_iter(), src.id, src.addr)).await,
+            Issued::MDel(ms) => tmo(client.multi_del(&ksn(), DocVec::from_vec(ms))).await,
         };
         match r {
             None => "timeout".into(),
@@ -184,6 +191,10 @@ impl Domain for ClusterDomain {
         let rt = runtime();
         let u = |i: usize| p_u64(t[i]) as usize;
         match t[0] {
+            "ks" => {
+                *CUR_KS.lock() = t[1].to_string();
+                "ok".into()
+            },
             "advance" => {
                 // advance <ms>: the wall clock of every node jumps forward (injected, then constant: the hybrid clocks keep
                 // stamps strictly increasing through their counters); hour-scale histories run instantly
@@ -226,7 +237,7 @@ impl Domain for ClusterDomain {
                 let n = &self.nodes[i];
                 let ts = rt.block_on(n.clock.get_time());
                 let doc = Document::new(id, ts, gen_data(t[3]));
-                self.dists[i].as_ref().expect("dist").put(KS, doc.clone());
+                self.dists[i].as_ref().expect("dist").put(&ksn(), doc.clone());
                 // one batching tick (1 s) plus the RPCs; poll until the set of holders has been stable for 300 ms
                 // (and non-empty, or 2.6 s have passed): robust on a loaded machine
                 let mut got: Vec<String> = Vec::new();
@@ -236,7 +247,7 @@ impl Domain for ClusterDomain {
                 loop {
                     let mut now = Vec::new();
                     for (j, nj) in self.nodes.iter().enumerate() {
-                        if let Ok(Some(d)) = rt.block_on(nj.group.storage().get(KS, id)) {
+                        if let Ok(Some(d)) = rt.block_on(nj.group.storage().get(&ksn(), id)) {
                             if d.last_updated() == ts {
                                 now.push(j.to_string());
                             }
@@ -249,7 +260,7 @@ impl Domain for ClusterDomain {
                     rt.block_on(async { tokio::time::sleep(Duration::from_millis(100)).await });
                     waited += 100;
                 }
-                self.ops.push((i, Issued::Put(doc)));
+                self.issued.entry(ksn()).or_default().push((i, Issued::Put(doc)));
                 format!("recv {} ts={}", if got.is_empty() { "-".to_string() } else { got.join(",") }, ts.as_u64())
             },
             "nodes" => {
@@ -268,7 +279,8 @@ impl Domain for ClusterDomain {
                     v
                 });
                 self.nodes = nodes;
-                self.ops.clear();
+                self.issued.clear();
+                *CUR_KS.lock() = String::new();
                 "ok".into()
             },
             // ---- client operations, applied locally exactly as ReplicatedStoreHandle does
@@ -278,12 +290,12 @@ impl Domain for ClusterDomain {
                 let (ts, ok, doc) = rt.block_on(async {
                     let ts = n.clock.get_time().await;
                     let doc = Document::new(id, ts, data);
-                    let ks = n.group.get_or_create_keyspace(KS).await;
+                    let ks = n.group.get_or_create_keyspace(&ksn()).await;
                     let r = tmo(ks.send(Set { source: 0, doc: doc.clone(), ctx: None, _marker: PhantomData::<Store> })).await;
                     (ts, matches!(r, Some(Ok(()))), doc)
                 });
-                self.ops.push((i, Issued::Put(doc)));
-                format!("{} op={} ts={}", if ok { "ok" } else { "err" }, self.ops.len() - 1, ts.as_u64())
+                self.issued.entry(ksn()).or_default().push((i, Issued::Put(doc)));
+                format!("{} op={} ts={}", if ok { "ok" } else { "err" }, self.issued.get(&ksn()).map(|v| v.len()).unwrap_or(0) - 1, ts.as_u64())
             },
             "del" => {
                 let (i, id) = (u(1), p_u64(t[2]));
@@ -291,12 +303,12 @@ impl Domain for ClusterDomain {
                 let (ts, ok, m) = rt.block_on(async {
                     let ts = n.clock.get_time().await;
                     let m = DocumentMetadata::new(id, ts);
-                    let ks = n.group.get_or_create_keyspace(KS).await;
+                    let ks = n.group.get_or_create_keyspace(&ksn()).await;
                     let r = tmo(ks.send(Del { source: 0, doc: m, _marker: PhantomData::<Store> })).await;
                     (ts, matches!(r, Some(Ok(()))), m)
                 });
-                self.ops.push((i, Issued::Del(m)));
-                format!("{} op={} ts={}", if ok { "ok" } else { "err" }, self.ops.len() - 1, ts.as_u64())
+                self.issued.entry(ksn()).or_default().push((i, Issued::Del(m)));
+                format!("{} op={} ts={}", if ok { "ok" } else { "err" }, self.issued.get(&ksn()).map(|v| v.len()).unwrap_or(0) - 1, ts.as_u64())
             },
             "mput" => {
                 // mput <i> id:data,id:data
@@ -306,12 +318,12 @@ impl Domain for ClusterDomain {
                 let (ts, ok, docs) = rt.block_on(async {
                     let ts = n.clock.get_time().await;
                     let docs: Vec<Document> = items.into_iter().map(|(id, d)| Document::new(id, ts, d)).collect();
-                    let ks = n.group.get_or_create_keyspace(KS).await;
+                    let ks = n.group.get_or_create_keyspace(&ksn()).await;
                     let r = tmo(ks.send(MultiSet { source: 0, docs: DocVec::from_vec(docs.clone()), ctx: None, _marker: PhantomData::<Store> })).await;
                     (ts, matches!(r, Some(Ok(()))), docs)
                 });
-                self.ops.push((i, Issued::MPut(docs)));
-                format!("{} op={} ts={}", if ok { "ok" } else { "err" }, self.ops.len() - 1, ts.as_u64())
+                self.issued.entry(ksn()).or_default().push((i, Issued::MPut(docs)));
+                format!("{} op={} ts={}", if ok { "ok" } else { "err" }, self.issued.get(&ksn()).map(|v| v.len()).unwrap_or(0) - 1, ts.as_u64())
             },
             "mdel" => {
                 let i = u(1);
@@ -320,12 +332,12 @@ impl Domain for ClusterDomain {
                 let (ts, ok, ms) = rt.block_on(async {
                     let ts = n.clock.get_time().await;
                     let ms: Vec<DocumentMetadata> = ids.into_iter().map(|id| DocumentMetadata::new(id, ts)).collect();
-                    let ks = n.group.get_or_create_keyspace(KS).await;
+                    let ks = n.group.get_or_create_keyspace(&ksn()).await;
                     let r = tmo(ks.send(MultiDel { source: 0, docs: DocVec::from_vec(ms.clone()), _marker: PhantomData::<Store> })).await;
                     (ts, matches!(r, Some(Ok(()))), ms)
                 });
-                self.ops.push((i, Issued::MDel(ms)));
-                format!("{} op={} ts={}", if ok { "ok" } else { "err" }, self.ops.len() - 1, ts.as_u64())
+                self.issued.entry(ksn()).or_default().push((i, Issued::MDel(ms)));
+                format!("{} op={} ts={}", if ok { "ok" } else { "err" }, self.issued.get(&ksn()).map(|v| v.len()).unwrap_or(0) - 1, ts.as_u64())
             },
             // ---- replication messages through the real RPC clients and services
             "deliver" => {
@@ -339,7 +351,7 @@ impl Domain for ClusterDomain {
                 let mut puts: Vec<Document> = Vec::new();
                 let mut dels: Vec<DocumentMetadata> = Vec::new();
                 for k in ks_ {
-                    match self.ops[k].1.clone() {
+                    match self.issued.get(&ksn()).expect("ops")[k].1.clone() {
                         Issued::Put(d) => puts.push(d),
                         Issued::Del(m) => dels.push(m),
                         Issued::MPut(ds) => puts.extend(ds),
@@ -353,10 +365,10 @@ impl Domain for ClusterDomain {
                     let mut modified = DocVec::new();
                     let mut removed = DocVec::new();
                     if !puts.is_empty() {
-                        modified.push(MultiPutPayload { keyspace: KS.to_string(), ctx: None, documents: DocVec::from_vec(puts), timestamp });
+                        modified.push(MultiPutPayload { keyspace: ksn(), ctx: None, documents: DocVec::from_vec(puts), timestamp });
                     }
                     if !dels.is_empty() {
-                        removed.push(MultiRemovePayload { keyspace: KS.to_string(), documents: DocVec::from_vec(dels), timestamp });
+                        removed.push(MultiRemovePayload { keyspace: ksn(), documents: DocVec::from_vec(dels), timestamp });
                     }
                     let batch = BatchPayload { timestamp, modified, removed };
                     let mut client = ConsistencyClient::<Store>::new(src.clock.clone(), src.network.get_or_connect(dst.addr));
@@ -389,6 +401,8 @@ impl Domain for ClusterDomain {
                     None => "timeout".into(),
                     Some(Err(e)) => format!("err {}", e.to_string().split_whitespace().take(4).collect::<Vec<_>>().join("_")),
                     Some(Ok(rep)) => {
+                        let mut rep = rep;
+                        rep.sort();
                         if rep.is_empty() {
                             "skipped".into()
                         } else {
@@ -401,7 +415,7 @@ impl Domain for ClusterDomain {
                 let j = u(1);
                 let n = &self.nodes[j];
                 let r = rt.block_on(async {
-                    let ks = n.group.get_or_create_keyspace(KS).await;
+                    let ks = n.group.get_or_create_keyspace(&ksn()).await;
                     tmo(ks.send(PurgeDeletes(PhantomData::<Store>))).await
                 });
                 if matches!(r, Some(Ok(()))) { "ok".into() } else { "err".into() }
@@ -432,7 +446,7 @@ impl Domain for ClusterDomain {
             },
             "get" => {
                 let (j, id) = (u(1), p_u64(t[2]));
-                match rt.block_on(self.nodes[j].group.storage().get(KS, id)) {
+                match rt.block_on(self.nodes[j].group.storage().get(&ksn(), id)) {
                     Ok(Some(d)) => format!("doc {}:{}:{}", d.id(), d.last_updated().as_u64(), show_data(d.data())),
                     Ok(None) => "none".into(),
                     Err(_) => "err".into(),
@@ -453,7 +467,7 @@ impl Domain for ClusterDomain {
                     .collect();
                 let (ts, res, issued) = rt.block_on(async {
                     let ts = n.clock.get_time().await;
-                    let ks = n.group.get_or_create_keyspace(KS).await;
+                    let ks = n.group.get_or_create_keyspace(&ksn()).await;
                     let doc = Document::new(id, ts, data);
                     let meta = DocumentMetadata::new(id, ts);
                     let local_ok = if is_put {
@@ -471,7 +485,7 @@ impl Domain for ClusterDomain {
                         let (nid, naddr) = (n.id, n.addr);
                         async move {
                             let mut client = ConsistencyClient::<Store>::new(clock, channel);
-                            let r = if is_put { client.put(KS, doc, nid, naddr).await } else { client.del(KS, id, ts).await };
+                            let r = if is_put { client.put(&ksn(), doc, nid, naddr).await } else { client.del(&ksn(), id, ts).await };
                             r.map_err(|e| StoreError::RpcError(node, e))?;
                             Ok::<_, StoreError<<Store as Storage>::Error>>(())
                         }
@@ -484,10 +498,10 @@ impl Domain for ClusterDomain {
                     };
                     (ts, r, if is_put { Issued::Put(doc) } else { Issued::Del(meta) })
                 });
-                self.ops.push((i, issued));
+                self.issued.entry(ksn()).or_default().push((i, issued));
                 match res {
-                    Ok(()) => format!("ok op={} ts={}", self.ops.len() - 1, ts.as_u64()),
-                    Err(e) => format!("{} op={} ts={}", e, self.ops.len() - 1, ts.as_u64()),
+                    Ok(()) => format!("ok op={} ts={}", self.issued.get(&ksn()).map(|v| v.len()).unwrap_or(0) - 1, ts.as_u64()),
+                    Err(e) => format!("{} op={} ts={}", e, self.issued.get(&ksn()).map(|v| v.len()).unwrap_or(0) - 1, ts.as_u64()),
                 }
             },
             // ---- C01 (poller skip rule): a write processed BETWEEN the two actor messages of the GetState handler
@@ -503,7 +517,7 @@ impl Domain for ClusterDomain {
                 ni.reached.store(false, Ordering::SeqCst);
                 *ni.directive.lock() = Directive::Gate;
                 let (out, d1, d2) = rt.block_on(async {
-                    let ks = ni.group.get_or_create_keyspace(KS).await;
+                    let ks = ni.group.get_or_create_keyspace(&ksn()).await;
                     let ts1 = ni.clock.get_time().await;
                     let doc1 = Document::new(id1, ts1, vec![1u8]);
                     let ks1 = ks.clone();
@@ -515,7 +529,7 @@ impl Domain for ClusterDomain {
                         waited += 1;
                     }
                     let mut client = ReplicationClient::<Store>::new(nj.clock.clone(), nj.network.get_or_connect(ni.addr));
-                    let t2 = tokio::spawn(async move { client.get_state(KS).await });
+                    let t2 = tokio::spawn(async move { client.get_state(&ksn()).await });
                     tokio::time::sleep(Duration::from_millis(150)).await;
                     let ts2 = ni.clock.get_time().await;
                     let doc2 = Document::new(id2, ts2, vec![2u8]);
@@ -527,7 +541,7 @@ impl Domain for ClusterDomain {
                     let _ = tmo(t1).await;
                     let _ = tmo(t3).await;
                     let reply = tmo(t2).await;
-                    let lfin = ni.group.get_keyspace_info().await.keyspace_timestamps.get(KS).copied();
+                    let lfin = ni.group.get_keyspace_info().await.keyspace_timestamps.get(&ksn()).copied();
                     let out = match reply {
                         Some(Ok(Ok((l, set)))) => format!(
                             "race stamp_is_final={} has1={} has2={} ts={} ts2={}",
@@ -542,8 +556,8 @@ impl Domain for ClusterDomain {
                     (out, doc1, doc2)
                 });
                 *ni.directive.lock() = Directive::None;
-                self.ops.push((i, Issued::Put(d1)));
-                self.ops.push((i, Issued::Put(d2)));
+                self.issued.entry(ksn()).or_default().push((i, Issued::Put(d1)));
+                self.issued.entry(ksn()).or_default().push((i, Issued::Put(d2)));
                 out
             },
             // ---- C19: the keyspace state a peer obtains
@@ -554,7 +568,7 @@ impl Domain for ClusterDomain {
                 let dst = &self.nodes[i];
                 let r = rt.block_on(async {
                     let mut client = ReplicationClient::<Store>::new(src.clock.clone(), src.network.get_or_connect(dst.addr));
-                    tmo(client.get_state(KS)).await
+                    tmo(client.get_state(&ksn())).await
                 });
                 match r {
                     None => "timeout".into(),
@@ -581,7 +595,7 @@ impl Domain for ClusterDomain {
                 let i = u(1);
                 let n = &self.nodes[i];
                 let r = rt.block_on(async {
-                    let ks = n.group.get_or_create_keyspace(KS).await;
+                    let ks = n.group.get_or_create_keyspace(&ksn()).await;
                     tmo(ks.send(Serialize)).await
                 });
                 match r {
@@ -609,7 +623,7 @@ impl Domain for ClusterDomain {
                 let (i, n, seed) = (u(1), p_u64(t[2]), p_u64(t[3]));
                 let node = &self.nodes[i];
                 rt.block_on(async {
-                    let ks = node.group.get_or_create_keyspace(KS).await;
+                    let ks = node.group.get_or_create_keyspace(&ksn()).await;
                     let mut s = seed;
                     let mut chunk: Vec<Document> = Vec::new();
                     for x in 0..n {
@@ -645,7 +659,7 @@ impl Domain for ClusterDomain {
                 let src = &self.nodes[j];
                 let r = rt.block_on(async {
                     let mut client = ReplicationClient::<Store>::new(src.clock.clone(), Channel::connect(addr));
-                    tmo(async { std::panic::AssertUnwindSafe(client.get_state(KS)).await }).await
+                    tmo(async { std::panic::AssertUnwindSafe(client.get_state(&ksn())).await }).await
                 });
                 match r {
                     None => "timeout".into(),
